@@ -259,6 +259,7 @@ def gen_history(seed, wl, cfg=None):
     max_atoms = cfg.get('max_atoms', 300)
     pool = [i for i in inputs if i['natoms'] <= max_atoms or i['family'] in BIG_OK]
     small = [i for i in pool if i['natoms'] <= 120]
+    table_mutating = [i for i in pool if i['tags'][0] in ('unk', 'unkc')]
     fams = {}
     for i in pool:
         fams.setdefault(i['family'], []).append(i)
@@ -301,7 +302,11 @@ def gen_history(seed, wl, cfg=None):
             inp = rng.choice(sibs)
             opts, param, optsig = p[1], p[2], p[3]
         else:
-            if rng.random() < 0.7:
+            if table_mutating and rng.random() < 0.06:
+                # inputs that write into process-lifetime tables (elements the
+                # valence table lacks), in their two flavours
+                inp = rng.choice(table_mutating)
+            elif rng.random() < 0.7:
                 inp = rng.choice(fams[rng.choice(focus)])
             else:
                 inp = rng.choice(small if small and rng.random() < 0.7 else pool)
